@@ -50,6 +50,11 @@ pub struct Analysis {
 }
 
 impl Analysis {
+    /// The files that make up the workspace rooted at the current root file.
+    pub fn workspace_files(&self) -> Vec<FileId> {
+        self.db.source_root().iter_files().collect()
+    }
+
     pub fn line_index(&self, file_id: FileId) -> Arc<LineIndex> {
         self.db.line_index(file_id)
     }
